@@ -134,7 +134,9 @@ CHECKS = [
         "Deductive proof of MetricFetcher's primary/fallback switching against scripted streams on a common grid: forward-only "
         "synchronisation of the fallback stream up to the primary sample's timestamp (loop invariant), invalid primary sample replaced "
         "by the fallback sample of the same timestamp, valid primary used, fallback started lazily and once, failing primary falls "
-        "through to the fallback, and no other exception escapes. Found and repaired a genuine defect (fix: commit in /repo). "
+        "through to the fallback, and no other exception escapes. Found and repaired a genuine defect (fix: commit in /repo); a second one "
+        "- a multi-term formula stays misaligned after a term's primary stream is closed - was found by the bounded explorer and is a "
+        "recorded known finding (the proof is per term and says nothing about the other terms of the formula). "
         "A bounded native explorer on the real objects runs alongside as a second, structure-independent line of detection (labelled bounded in the evidence; not part of the proof, never counted in obligations/discharged).",
         "channel behaviour (receive returns the next sample or raises) is the scripted stream model; timestamps as integer grid ticks; "
         "IEEE doubles for sample values; FallbackFormulaMetricFetcher's lazy engine creation not under contract",
@@ -154,7 +156,7 @@ CHECKS = [
         "slot with ties to even, wrap = slot mod capacity). Bounded only (labelled, not counted as proved): the real OrderedRingBuffer "
         "against an abstract sliding time-indexed map over all update histories of a small scope plus seeded random longer ones, "
         "including datetime/index window queries, and the real MovingWindow (alignment on and off the epoch grid, at(), window(), "
-        "oldest/newest) against the same map. The bounded part found genuine defects in window() and MovingWindow.at(), repaired by "
+        "oldest/newest) against the same map. The bounded part found genuine defects in window(), MovingWindow.at() and count_covered() (non-binary sampling periods), repaired by "
         "two fix: commits.",
         "gap-list maintenance, window assembly and MovingWindow are outside the verifier's subset (in-place mutation of aliased objects, "
         "numpy, tasks): only the stated bounded scope is covered for them; even-microsecond periods for the proof",
